@@ -33,7 +33,7 @@ RULE = ('EUI-64: literal vectors, then boundary MACs (0, all ones, U/L bit, ever
         'fragment x allow_fragments x default scheme, then seeded compositions with generated query pairs. '
         'non-trivial = every EUI/host:port case; a URL with a query, a fragment, userinfo, a port or an '
         'IPv6 literal. distinct by the rendered input text plus call arguments')
-REQUIRED_CLAUSES = ['under-warnings-as-errors', 'eui64-result-owned-by-caller', 'under-lazy-translation', 'documented-keyword-call', 'eui64-forward', 'eui64-inverse', 'eui64-inverse-constructed', 'eui64-literal-vector',
+REQUIRED_CLAUSES = ['equal-valued-arguments-in-any-order', 'under-warnings-as-errors', 'eui64-result-owned-by-caller', 'under-lazy-translation', 'documented-keyword-call', 'eui64-forward', 'eui64-inverse', 'eui64-inverse-constructed', 'eui64-literal-vector',
                     'eui64-must-raise-ipv4-prefix', 'eui64-must-raise-malformed-prefix',
                     'eui64-must-raise-malformed-mac', 'eui64-dont-care-no-unexpected-exception',
                     'hostport-roundtrip', 'hostport-default-port', 'hostport-documented-forms',
